@@ -763,6 +763,55 @@ func ruleConnectLifecycle(c *Ctx) {
 		}
 	}
 	c.Sites += len(seq)
+	// the sender's exit channel is how Q learns that nobody reads the request channel any more: on every
+	// path of Connect that creates it, either the sender goroutine is started (it closes the channel on every
+	// exit) or the channel is closed before Connect returns — a Connect that fails after creating it leaves a
+	// channel nobody will ever close: queueing blocks once the request channel's buffer is full, and every
+	// Close closes the request channel again
+	evx := func(n ast.Node) []Event {
+		var out []Event
+		inspectNoFuncLit(n, func(m ast.Node) bool {
+			switch x := m.(type) {
+			case *ast.AssignStmt:
+				if len(x.Lhs) == 1 && len(x.Rhs) == 1 {
+					if se, ok := ast.Unparen(x.Lhs[0]).(*ast.SelectorExpr); ok && se.Sel.Name == "sendExitCh" {
+						out = append(out, Event{Kind: "make-exit", Node: x})
+					}
+				}
+			case *ast.GoStmt:
+				out = append(out, Event{Kind: "go", Node: x})
+			case *ast.CallExpr:
+				if id, ok := ast.Unparen(x.Fun).(*ast.Ident); ok && id.Name == "close" && len(x.Args) == 1 {
+					if se, ok := ast.Unparen(x.Args[0]).(*ast.SelectorExpr); ok && se.Sel.Name == "sendExitCh" {
+						out = append(out, Event{Kind: "close-exit", Node: x})
+					}
+				}
+			}
+			return true
+		})
+		return out
+	}
+	xpaths, xpe := enumFunc(fi, evx, nil)
+	c.Sites += len(xpaths)
+	badx := ""
+	if xpe.overflow || len(xpe.unsup) > 0 {
+		badx = "path enumeration incomplete"
+	}
+	nMake := 0
+	for _, p := range xpaths {
+		if p.End == "panic" || !p.has("make-exit") {
+			continue
+		}
+		nMake++
+		if p.count("go") < 2 && !p.has("close-exit") {
+			badx = "Connect can return having created the sender's exit channel without starting the sender or closing the channel: " + p.describe(c.P)
+		}
+	}
+	if nMake == 0 {
+		c.vanished(rule, fi.Name, "exit channel", "Connect never creates the sender's exit channel")
+	} else {
+		c.check(badx == "", rule, fi.Name, "the exit channel is closed, or its closer started, on every path that creates it", c.P.pos(fi.Decl.Pos()), fmt.Sprintf("%d paths create it", nMake), badx)
+	}
 	c.check(strings.Join(seq, ",") == "add,go,add,go", rule, fi.Name, "each goroutine is counted before it starts", c.P.pos(fi.Decl.Pos()), "wg.Add(1); go …; wg.Add(1); go …", "goroutine start / wait-group accounting sequence is ["+strings.Join(seq, ",")+"], want [add,go,add,go]")
 	if len(gos) != 2 {
 		c.vanished(rule, fi.Name, "goroutine bodies", fmt.Sprintf("found %d goroutine bodies, want 2", len(gos)))
